@@ -376,6 +376,40 @@ func (e *Engine) ProveLemma(pi *PkgInfo, lm *Lemma) *FuncResult {
 			env.vars[p.Name] = v
 		}
 		c.bound = env
+		if lm.TwoState {
+			// an arbitrary earlier heap and an arbitrary current heap: evaluate once to materialise the arrays
+			// the lemma reads, snapshot them as the old state, then forget them all
+			n0 := len(c.St.Path)
+			c.Fr.OldHeap = c.St.cloneHeap()
+			c.Fr.OldTop = c.St.Top
+			func() {
+				defer func() { recover() }()
+				for _, r := range lm.Requires {
+					c.evalSpecBool(r.E)
+				}
+				for _, q := range lm.Ensures {
+					c.evalSpecBool(q.E)
+				}
+			}()
+			c.St.Path = c.St.Path[:n0]
+			c.defs = nil
+			c.lambdaCache = nil
+			c.wfSeen = map[string]bool{}
+			c.Fr.OldHeap = c.St.cloneHeap()
+			c.Fr.OldTop = c.St.Top
+			names := make([]string, 0, len(c.St.Heap))
+			for n := range c.St.Heap {
+				names = append(names, n)
+			}
+			sort.Strings(names)
+			nt := c.fresh("top", SInt)
+			c.assume(Le(c.St.Top, nt))
+			c.St.Top = nt
+			for _, n := range names {
+				cur := c.St.Heap[n]
+				c.St.Heap[n] = c.fresh("H$"+n, cur.Sort)
+			}
+		}
 		c.assumeAxioms(lm.Uses)
 		for _, r := range lm.Requires {
 			c.assume(c.evalSpecBool(r.E))
